@@ -50,6 +50,7 @@ COMMANDS = {
 PAIRS = [('fresh', 'setup-fresh')] + [(h, c) for h in ('configured', 'configured+configure', 'failed-reconfigure') for c in ('reconfigure-D', 'wipe', 'configure-D', 'configure-U', 'configure-D-sub')]
 
 _server = None
+_states = {}
 
 
 def server():
@@ -76,10 +77,18 @@ def prepare(root, proj, backend, history):
     for argv in HISTORIES[history]:
         a = [bdir if x == 'B' else x for x in argv]
         if a[0] == 'setup' and '--reconfigure' not in a:
-            a += [src, '--backend=' + backend]
-        r = mp.run_meson(a, root, env=env)
+            a = a[:2] + [src] + a[2:] + ['--backend=' + backend]
+        r = mp.run_meson(a, src, env=env)
         vals.update(observe(r.out))
-    return fsutil.snapshot(bdir), vals
+    snap = fsutil.snapshot(bdir)
+    if snap is not None:
+        # ground truth of the state before the command under test: what the build files see on a plain reconfigure
+        # (observed on the directory itself, which is then restored from the snapshot)
+        r = mp.run_meson(['setup', '--reconfigure', bdir], src, env=env)
+        if r.rc == 0:
+            vals = observe(r.out)
+        fsutil.restore(bdir, snap)
+    return snap, vals
 
 
 def argv_for(cmdname, root, backend):
@@ -87,29 +96,35 @@ def argv_for(cmdname, root, backend):
     bdir = os.path.join(root, 'b')
     a = [bdir if x == 'B' else x for x in argv]
     if cmdname == 'setup-fresh':
-        a += [os.path.join(root, 'src'), '--backend=' + backend]
+        a = a[:2] + [os.path.join(root, 'src')] + a[2:] + ['--backend=' + backend]
     return a
 
 
 def trial(job):
     """one kill point: restore, run killed, recover, judge"""
     from verif import mesonproc as mp
-    pname, proj, backend, history, cmdname, snap, before, k, tear = job
+    pname, proj, backend, history, cmdname, k, tear = job
     root = os.path.join(scratch_root(), 'c09.%d' % os.getpid())
     src = os.path.join(root, 'src')
     bdir = os.path.join(root, 'b')
+    # the state before the command is prepared once per worker at the worker's own path (a build directory records
+    # absolute paths, so a snapshot is only valid where it was made)
+    ck_ = (pname, history)
+    if ck_ not in _states:
+        _states[ck_] = prepare(root, proj, backend, history)
+    snap, before = _states[ck_]
     if not os.path.isdir(src):
         mp.write_tree(src, proj)
     fsutil.restore(bdir, snap)
     env = mp.base_env(home=os.path.join(root, 'home'))
-    r = server().run(argv_for(cmdname, root, backend), root, env=env, pre=('verif.fsfault', 'arm', (bdir, k, '', tear)))
+    r = server().run(argv_for(cmdname, root, backend), src, env=env, pre=('verif.fsfault', 'arm_sorted', (bdir, k, '', tear)))
     killed = r.rc == 137
     # recovery as the property prescribes
     if os.path.exists(os.path.join(bdir, 'meson-private', 'coredata.dat')):
         rec = ['setup', '--reconfigure', bdir]
     else:
         rec = argv_for('setup-fresh', root, backend) if cmdname == 'setup-fresh' else ['setup', bdir, src, '--backend=' + backend]
-    rr = mp.run_meson(rec, root, env=env)
+    rr = mp.run_meson(rec, src, env=env)
     res = {'k': k, 'killed': killed, 'rec_rc': rr.rc, 'viol': None, 'outcome': None}
     what = '%s / %s / %s killed before mutation %d%s' % (pname, history, cmdname, k, ' (torn write)' if tear else '')
     if rr.unhandled:
@@ -146,11 +161,12 @@ def count_points(job):
     bdir = os.path.join(root, 'b')
     log = os.path.join(root, 'mut.log')
     env = mp.base_env(home=os.path.join(root, 'home'))
-    r = server().run(argv_for(cmdname, root, backend), root, env=env, pre=('verif.fsfault', 'arm', (bdir, 0, log, 0)))
+    src = os.path.join(root, 'src')
+    r = server().run(argv_for(cmdname, root, backend), src, env=env, pre=('verif.fsfault', 'arm_sorted', (bdir, 0, log, 0)))
     points = fsfault.read_log(log)
     # a second counting run must list the same mutations (determinism of the enumeration)
     fsutil.restore(bdir, snap)
-    r2 = server().run(argv_for(cmdname, root, backend), root, env=env, pre=('verif.fsfault', 'arm', (bdir, 0, log, 0)))
+    r2 = server().run(argv_for(cmdname, root, backend), src, env=env, pre=('verif.fsfault', 'arm_sorted', (bdir, 0, log, 0)))
     points2 = fsfault.read_log(log)
     same = [(p[1], p[3]) for p in points] == [(p[1], p[3]) for p in points2]
     shutil.rmtree(root, ignore_errors=True)
@@ -171,7 +187,7 @@ def main():
         proj = PROJECT if d['project'] == 'nolang' else CPROJECT
         backend = 'none' if d['project'] == 'nolang' else 'ninja'
         job, snap, before, points, rc, same = count_points((d['project'], proj, backend, d['history'], d['command']))
-        res = trial((d['project'], proj, backend, d['history'], d['command'], snap, before, d['k'], d.get('tear', 0)))
+        res = trial((d['project'], proj, backend, d['history'], d['command'], d['k'], d.get('tear', 0)))
         print(res)
         sys.exit(1 if res['viol'] else 0)
     cjobs = [(pn, pj, be, h, c) for pn, pj, be in projects for h, c in PAIRS]
@@ -211,7 +227,7 @@ def main():
                     tot['log_only_points_grouped'] += j - i - 1
                 i = j + 1
         for k, tear in ks:
-            trials.append((pn, pj, be, h, c, snap, before, k, tear))
+            trials.append((pn, pj, be, h, c, k, tear))
     outcomes = set()
     for t, res in zip(trials, pmap(trial, trials, chunksize=4)):
         tot['trials'] += 1
@@ -220,7 +236,7 @@ def main():
             outcomes.add((t[4], res['outcome']))
         if res['viol']:
             key, what = res['viol']
-            ck.violation(key, what, {'project': t[0], 'history': t[3], 'command': t[4], 'k': t[7], 'tear': t[8]})
+            ck.violation(key, what, {'project': t[0], 'history': t[3], 'command': t[4], 'k': t[5], 'tear': t[6]})
     ck.part('enumeration', **tot)
     ck.part('points_per_pair', **per_pair)
     ck.sample({'pair': 'nolang/configured/configure-D', 'trial': 'restore snapshot; run under shim killed before mutation k; recover; read VOPT messages'})
